@@ -8,7 +8,7 @@ CONSTANTS
   ZombieSteals = FALSE
   MaxTick = 1
   MaxSlow = 1
-  MaxIdleT = 1
+  MaxIdleT = 0
   MaxKill = 1
   TrackLast = TRUE
 INVARIANTS Inv
